@@ -1,7 +1,7 @@
 SPECIFICATION Spec
 CONSTANTS
   Runs = {1, 2}
-  Params <- Params_AD
+  Params <- Params_CD
   OrderKinds = {"order", "balance", "trade"}
 INVARIANTS TypeOK PrefixAlways CompleteInOrder FeedInOrder SentOK AppliedOK SummaryOK
 PROPERTIES Isolation Monotone 
